@@ -253,11 +253,33 @@ fn rewrite_lists(l: &SemanticErrorList, cur: &Current, out: &mut Vec<(String, St
     }
 }
 
+/// The paths of all source files of the analysis.
+fn source_paths<T: SourceTrait>(sf: &T, out: &mut Vec<std::path::PathBuf>) {
+    out.push(sf.file_path().to_path_buf());
+    for inc in sf.included() {
+        source_paths(inc, out);
+    }
+}
+
+/// Every list of semantic diagnostics is filed under one of the source files of the analysis
+/// (the text a diagnostic's range refers to is the text of the file its list is tagged with).
+fn list_tags(l: &SemanticErrorList, paths: &[std::path::PathBuf], out: &mut Vec<(String, String)>) {
+    if !l.is_empty() && !paths.iter().any(|p| p == l.source_file_path()) {
+        out.push(("semantic_span".into(), format!("{} diagnostic(s) are filed under {:?}, which is not the path of any source file of this analysis {:?}", l.iter().count(), l.source_file_path(), paths)));
+    }
+    for inc in l.include_errors() {
+        list_tags(inc, paths, out);
+    }
+}
+
 fn rewrite_inspect<T: SourceTrait>(sf: &T, errs: &SemanticErrorList, cur: &Current) -> (Vec<(String, String)>, usize) {
     let mut out = Vec::new();
     let mut ndiag = 0usize;
     rewrite_file(sf, cur, &mut out, &mut ndiag);
     rewrite_lists(errs, cur, &mut out, &mut ndiag);
+    let mut paths = Vec::new();
+    source_paths(sf, &mut paths);
+    list_tags(errs, &paths, &mut out);
     (out, ndiag)
 }
 
